@@ -269,12 +269,6 @@ Proof.
 Qed.
 
 (* ---------------------------------------------------------------- a concrete float system for the examples *)
-Lemma no_underflow_ge_small x : / 1024 <= Rabs x -> no_underflow x.
-Proof.
-  intros H. right. apply Rle_trans with (bpow radix2 (-10)); [apply bpow_le; lia|].
-  change (bpow radix2 (-10)) with (/ 1024). exact H.
-Qed.
-
 (* [[2,1],[0,3]] x = [1,1]: x_1 = fl(1/3) is inexact *)
 Definition exf_m : matrix AF := @mkM AF [2%float; 1%float; 0%float; 3%float] 2 2.
 Definition exf_b : list pfloat := [1%float; 1%float].
